@@ -64,6 +64,20 @@ func (c *SpecCtx) fact(e *Expr) *Term {
 	return And(And(sides...), t)
 }
 
+// cond: the truth value of e in this state as a term usable in either polarity; the typing
+// facts of the memory cells it reads are assumed (under the given reachability).
+func (c *SpecCtx) cond(e *Expr, reach *Term) *Term {
+	var sides []*Term
+	n := *c
+	n.sides = &sides
+	n.assume = true
+	t := n.evalBool(e)
+	if len(sides) > 0 {
+		c.tr.vc.Assume(Implies(reach, And(sides...)))
+	}
+	return t
+}
+
 func (c *SpecCtx) intTerm(e *Expr) *Term {
 	var sides []*Term
 	n := *c
